@@ -684,7 +684,8 @@ theorem sec_of_parseSec {b : Bytes} {Q : Pt} (h : parseSec b = some Q) :
                 by_cases hb2 : beta % 2 = 0
                 · rw [if_pos hb2, if_neg (by omega)]
                 · rw [if_neg hb2, if_neg (by generalize P = p at *; omega)]
-              · rw [if_neg (by decide)]
+              · have h32 : ¬ ((3 : UInt8) = 2) := by decide
+                rw [if_neg h32]
                 by_cases hb2 : beta % 2 = 0
                 · rw [if_pos hb2, if_pos (by generalize P = p at *; omega)]
                 · rw [if_neg hb2, if_pos (by omega)]
